@@ -1,6 +1,7 @@
 import RsModel.Lemmas.EqHash
 import RsModel.Lemmas.EqViews
 import RsModel.Lemmas.WarmMap
+import RsModel.Lemmas.HistoryAnswers
 /-!
 # C14 — equality, hashing and cloning are coherent and history-independent
 -/
@@ -84,5 +85,37 @@ theorem c14_eq_second_stream (f : Text → Text) (a b : Src) (h : a.eqv b = true
     NA (a.stream ⟨true, false⟩ (a.stream ⟨true, false⟩ σa).2).1.evs = NA (b.stream ⟨true, false⟩ (b.stream ⟨true, false⟩ σb).2).1.evs := by
   rw [Src.second_stream_NA a σa hna hca hka hwa, Src.second_stream_NA b σb hnb hcb hkb hwb,
     (c14_eq_first_calls f a b h ha hb ⟨true, false⟩ σa σb hna hnb hca hcb).1]
+
+/-- **`a == b` after arbitrary observer histories, at name level** (columns = true): `a` and `b` are equal values with CachedSource
+nodes (none beneath a ReplaceSource), each on its own caches, cold at the start, and each is observed through its OWN history of
+streaming / `get_map` calls — any lengths, any option orders, the two histories unrelated.  Then any normal-mode stream of `a`'s
+history and any normal-mode stream of `b`'s history resolve every byte to the same file name, original line, original column and
+name; and so do the maps any two `get_map`s of the two histories return.  (What differs between equal values after different
+histories is the *representation* of what a cache replays — known finding K3 — never the attribution.) -/
+theorem c14_eq_every_history (f : Text → Text) (a b : Src) (h : a.eqv b = true) (ha : a.LossyFun f) (hb : b.LossyFun f)
+    (σa σb : Store) (hna : a.ids.Nodup) (hnb : b.ids.Nodup) (hca : Cold σa a.ids) (hcb : Cold σb b.ids)
+    (hka : a.NoCR) (hkb : b.NoCR) (callsA callsB : List Opts) :
+    (a.WarmHyp → b.WarmHyp → ∀ ka kb : Nat, callsA[ka]? = some (⟨true, false⟩ : Opts) → callsB[kb]? = some (⟨true, false⟩ : Opts) →
+      ∃ ra rb : SResult, (runCalls a callsA σa).1[ka]? = some ra ∧ (runCalls b callsB σb).1[kb]? = some rb ∧ NA ra.evs = NA rb.evs)
+    ∧ (a.ModeHypC → b.ModeHypC → a.SmallF → b.SmallF →
+        (∀ m ∈ chunkMs (a.strip.stream ⟨true, true⟩ []).1.evs, m.small) →
+        (∀ m ∈ chunkMs ((a.warm ⟨true, true⟩).stream ⟨true, true⟩ []).1.evs, m.small) →
+        (∀ m ∈ chunkMs ((b.warm ⟨true, true⟩).stream ⟨true, true⟩ []).1.evs, m.small) →
+        ∀ ka kb : Nat, callsA[ka]? = some (⟨true, true⟩ : Opts) → callsB[kb]? = some (⟨true, true⟩ : Opts) →
+        ∃ ra rb : SResult, (runCalls a callsA σa).1[ka]? = some ra ∧ (runCalls b callsB σb).1[kb]? = some rb ∧
+          ∀ sma smb, mapOfEvs true ra.evs = some sma → mapOfEvs true rb.evs = some smb →
+            (attrFrom (decode sma.mappings) startPos a.src).map (Option.map (resolveMF sma))
+              = (attrFrom (decode smb.mappings) startPos b.src).map (Option.map (resolveMF smb))) := by
+  have he := Src.eqv_erase f a b h ha hb
+  have hs : a.strip = b.strip := by rw [← Src.strip_eraseIds a, ← Src.strip_eraseIds b, he]
+  constructor
+  · intro hwa hwb ka kb h1 h2
+    obtain ⟨ra, a1, a2⟩ := history_stream_NA a hka hna σa hca hwa callsA ka h1
+    obtain ⟨rb, b1, b2⟩ := history_stream_NA b hkb hnb σb hcb hwb callsB kb h2
+    exact ⟨ra, rb, a1, b1, by rw [a2, b2, hs]⟩
+  · intro hma hmb hsa hsb hs1 hs2a hs2b ka kb h1 h2
+    obtain ⟨ra, a1, a2⟩ := history_map_NA a hka hna σa hca hma hsa hs1 hs2a callsA ka h1
+    obtain ⟨rb, b1, b2⟩ := history_map_NA b hkb hnb σb hcb hmb hsb (by rw [← hs]; exact hs1) hs2b callsB kb h2
+    exact ⟨ra, rb, a1, b1, fun sma smb ea eb => by rw [a2 sma ea, b2 smb eb, hs]⟩
 
 end Rs
